@@ -192,6 +192,7 @@ WITNESSES = [
     ("funcdecl_followed_by_andor", "f() { true; } && echo x; echo y"),
     ("cstyle_for_stops_after_failing_body", "for ((i=0;i<3;i++)); do echo $i; false; done"),
     ("err_trap_fires_on_exit_builtin", "trap 'echo err' ERR; exit 2"),
+    ("err_trap_inherited_by_functions", "trap 'echo err' ERR; f() { false; echo in; }; f"),
     ("errexit_inherited_by_command_substitution", "set -e; x=$(false; echo hi); echo $x"),
     ("core_AReturnOutside", "f() { (return 3; echo x); echo y $?; }; f"),
     ("core_AReturnOutside", "return 3; echo $?"),
